@@ -142,11 +142,12 @@ structure St where
   serving : Option (Nat × Bytes)   -- a server push request being evaluated by the listener
   outbox : List (Nat × Bytes)      -- frames written (requests carry an empty body here)
   delivered : List (Nat × Bytes)   -- ghost: frames the listener matched to a pending id
+  sentReqs : List Nat              -- ghost: calls whose request frame was handed to the writer
 
 def init (v : Variant) (closeBody : Bytes) (failBodies : List Bytes) : St :=
   { variant := v, closeBody, failBodies, calls := fun _ => {}, n := 0, pending := [],
     writer := true, provOpen := true, wrBroken := false, running := true, lst := .listening,
-    inbuf := [], eof := false, inErr := false, serving := none, outbox := [], delivered := [] }
+    inbuf := [], eof := false, inErr := false, serving := none, outbox := [], delivered := [], sentReqs := [] }
 
 def upd (f : Nat → Call) (c : Nat) (v : Call) : Nat → Call := fun k => if k = c then v else f k
 
@@ -195,7 +196,10 @@ def step (s : St) : Label → Option St
     if (s.calls c).phase = .registered then some (s.setPhase c .submitted) else none
   | .send c =>
     if (s.calls c).phase = .submitted && !s.lst.cleaning then
-      if s.writer then some { s.setPhase c .sent with outbox := s.outbox ++ [(c, [])] }
+      -- `writer.write(frame)`: the whole frame in ONE step, nobody can write in between
+      if s.writer then
+        some { s.setPhase c .sent with
+                outbox := s.outbox ++ [(c, [])], sentReqs := s.sentReqs ++ [c] }
       else some (s.finish c .sendErr)
     else none
   | .drain c =>
@@ -338,7 +342,7 @@ def digest (s : St) : String :=
   let calls := (List.range s.n).map fun c =>
     s!"{c}/{showPhase (s.calls c).phase}/{showFut (s.calls c).fut}"
   s!"lst={showLst s.lst} writer={b01 s.writer} running={b01 s.running} pending={showNats s.pending} " ++
-  s!"calls={";".intercalate calls} out={s.outbox.length} idle={b01 (ioIdle s)} blocked={b01 (anyBlocked s)}"
+  s!"calls={";".intercalate calls} out={s.outbox.length} wire={showNats (s.outbox.map (·.1))} idle={b01 (ioIdle s)} blocked={b01 (anyBlocked s)}"
 
 /-- run-length form of a long feed: `hh*count,hh*count,...` -/
 def parseRle (items : List String) : Option Bytes :=
